@@ -24,7 +24,12 @@ RULE = ("fmt: PageLabelStyle::format on EVERY number 0..4200 (thorough 0..20000)
         "and random large numbers; label: seeded random range sets (0..6 add_range calls in random order, duplicates, prefixes incl. non-ASCII, "
         "St in {0,1,26..28,52,53,702,703,18278, random, u32::MAX-3..u32::MAX}) x page indices (0,1,26,27,28,52,53,702,703, every range start -1/+0/+1/+27, "
         "random, u32::MAX) through PageLabelTree::get_label; dict: to_dict of the same range sets read by the Table-159 reader of the spec. "
-        "non-trivial = two or more ranges and a numeric portion >= 4 (label), number >= 4 (fmt), two or more ranges (dict); distinct by case text")
+        "seq: ONE PageLabelTree driven as a state machine — every interleaving up to length 3 (thorough 4) over 6 add_range / 6 get_label / to_dict "
+        "operations after three preludes, plus seeded random histories (4..60 ops: add_range at an existing start, start-1 (= last page of the neighbour), "
+        "start+1, at the page just looked up and at the last page of the range that answered it; get_label; get_all_labels; to_dict), every output compared "
+        "with the model and with the spec evaluated on the ranges added SO FAR; dict also generates neighbouring ranges with identical style/prefix/start. "
+        "non-trivial = two or more ranges and a numeric portion >= 4 (label), number >= 4 (fmt), two or more ranges (dict), "
+        "lookup after add_range after lookup after add_range (seq); distinct by case text")
 U32 = 2 ** 32 - 1
 
 
@@ -40,6 +45,9 @@ def classify(case, code):
     if not case:
         return None
     kind = case.get("kind", "label")
+    if kind == "seq":
+        # 2 + 8: computed inside Coq (Model.seq_code): every failing lookup of the history lies in the letters >= 28 class
+        return "C27-letters-spreadsheet" if code == 10 else None
     if kind == "fmt":
         sn = (case["style"], case["number"])
     elif kind == "label":
@@ -111,7 +119,7 @@ def pre(r):
         json.dump(cases, open(p, "w"))
         out, rc, log = r.harness("c27", cases_from=p, sub="c27_corpus")
         if rc == 0:
-            for ch in ("label", "fmt", "dict"):
+            for ch in ("label", "fmt", "dict", "seq"):
                 if os.path.exists(os.path.join(out, ch + ".meta.json")):
                     meta, fails = r.coq_eval(out, ch)
                     r.handle_fails(ch + "_corpus", meta, fails, classify)
@@ -129,5 +137,5 @@ def run(r):
         r.extra_cov["translator"] = {"roman_table_entries": len(x["table"]), "roman_cmp": x["roman_cmp"]}
     except Exception as e:
         r.proof_broken.append("translator gen_labels: %s" % e)
-    return standard(r, "c27", ["theories/C27/Proofs.vo"], ["theories/C27/Model.vo"], ["label", "fmt", "dict"],
+    return standard(r, "c27", ["theories/C27/Proofs.vo"], ["theories/C27/Model.vo"], ["label", "fmt", "dict", "seq"],
                     classify=classify, pre=pre)
